@@ -225,7 +225,7 @@ def harnesses(tier, seed):
                                        "so to_dict/from_dict (which rebuild float64 arrays) reproduce it"], nproc=1, max_replays=2))
     # the evaluation numbers in the result come from Model's per-point storage: every operation that writes it keeps it integer-typed
     from . import c17
-    for h in c17.harnesses('quick', seed):
+    for h in c17.model_harnesses('quick', seed):
         if h.params['op'] in ('add_new_point', 'change_point') and not h.params.get('with_h') and h.params['npt_so_far'] == h.params['num_pts']:
             h.name = 'model:' + h.name
             h.home = 'C17'
